@@ -705,9 +705,13 @@ func RunBounds(c *Ctx, allowed []allowSite) {
 			continue
 		}
 		expr := ""
+		var siteExpr ast.Expr
 		ast.Inspect(holder.Body, func(n ast.Node) bool {
 			switch x := n.(type) {
 			case *ast.IndexExpr, *ast.SliceExpr:
+				if isInstantiation(holder.Pkg.TypesInfo, x.(ast.Expr)) {
+					return true
+				}
 				p := c.P.Fset.Position(x.Pos())
 				e := c.P.Fset.Position(x.End())
 				if p.Line <= s.line && s.line <= e.Line {
@@ -715,6 +719,7 @@ func RunBounds(c *Ctx, allowed []allowSite) {
 					if p.Line == s.line {
 						// name-insensitive rendering: locals replaced by their definitions (canon.go)
 						expr = canonExpr(holder, x.(ast.Expr), c.P.Fset)
+						siteExpr = x.(ast.Expr)
 					}
 				}
 			}
@@ -736,6 +741,9 @@ func RunBounds(c *Ctx, allowed []allowSite) {
 				}
 			}
 		}
+		if !ok && siteExpr != nil && rangeIndexInBounds(holder, siteExpr) {
+			why, ok = "index is the key of a range over the indexed slice or over the slice whose length sized it (checked structurally)", true
+		}
 		if !ok && expr == "" {
 			// the compiler inlined a callee here and reports its bounds check at the call: look at the index expressions of the
 			// in-module functions called on this line
@@ -753,9 +761,17 @@ func RunBounds(c *Ctx, allowed []allowSite) {
 					if callee.Obj != fn.Origin() || callee.Body == nil {
 						continue
 					}
+					nIdx, nProven := 0, 0
 					ast.Inspect(callee.Body, func(m ast.Node) bool {
 						switch x := m.(type) {
 						case *ast.IndexExpr, *ast.SliceExpr:
+							if isInstantiation(callee.Pkg.TypesInfo, x.(ast.Expr)) || isMapIndex(callee.Pkg.TypesInfo, x.(ast.Expr)) {
+								return true
+							}
+							nIdx++
+							if rangeIndexInBounds(callee, x.(ast.Expr)) {
+								nProven++
+							}
 							ce := canonExpr(callee, x.(ast.Expr), c.P.Fset)
 							for _, nm := range append(c.attributed(callee), root) {
 								if w, has := allow[nm+"|"+ce]; has {
@@ -766,9 +782,17 @@ func RunBounds(c *Ctx, allowed []allowSite) {
 						}
 						return true
 					})
+					if !ok && nIdx > 0 && nIdx == nProven {
+						why, ok = "every index in the inlined callee is the key of a range over the indexed slice or the slice whose length sized it", true
+					}
 				}
 				return true
 			})
+		}
+		if !ok && siteExpr != nil {
+			if w, proved := boundsByCallers(c, holder, siteExpr); proved {
+				why, ok = w, true
+			}
 		}
 		c.R.Obl(Obligation{Rule: "E4.R-bounds", Func: root, Construct: "unproven bounds check " + expr, Pos: fmt.Sprintf("%s:%d", relTo(c.P.Repo, s.file), s.line), Discharged: ok, Nontrivial: true, How: []string{why}})
 		if !ok {
@@ -1171,4 +1195,268 @@ func RunPreconditions(c *Ctx, pkgs []string, allowed []allowSite) {
 			c.R.Extra["precondition_allow_unused:"+k] = true
 		}
 	}
+}
+
+// isInstantiation: the index expression instantiates a generic function or type (not a run-time index).
+func isInstantiation(info *types.Info, e ast.Expr) bool {
+	ix, ok := e.(*ast.IndexExpr)
+	if !ok {
+		return false
+	}
+	if tv, has := info.Types[ix.X]; has {
+		if tv.IsType() {
+			return true
+		}
+		if sig, isSig := tv.Type.(*types.Signature); isSig && sig.TypeParams().Len() > 0 {
+			return true
+		}
+	}
+	switch x := unparen(ix.X).(type) {
+	case *ast.Ident:
+		_, has := info.Instances[x]
+		return has
+	case *ast.SelectorExpr:
+		_, has := info.Instances[x.Sel]
+		return has
+	}
+	return false
+}
+
+func isMapIndex(info *types.Info, e ast.Expr) bool {
+	ix, ok := e.(*ast.IndexExpr)
+	if !ok {
+		return false
+	}
+	if tv, has := info.Types[ix.X]; has && tv.Type != nil {
+		_, isMap := tv.Type.Underlying().(*types.Map)
+		return isMap
+	}
+	return false
+}
+
+// rangeIndexInBounds is a structural in-bounds proof for the one idiom the compiler's prove pass loses under generic
+// stenciling and inlining: a[i] inside `for i := range b` where i is not written in the loop, and a is b itself (not
+// written in the loop) or a local defined exactly once as make(T, len(b)[, cap]) with b never written after its definition.
+func rangeIndexInBounds(fi *FuncInfo, e ast.Expr) bool {
+	ix, ok := e.(*ast.IndexExpr)
+	if !ok {
+		return false
+	}
+	info := fi.Pkg.TypesInfo
+	varOf := func(x ast.Expr) *types.Var {
+		id, ok := unparen(x).(*ast.Ident)
+		if !ok {
+			return nil
+		}
+		v, _ := info.Uses[id].(*types.Var)
+		return v
+	}
+	va, vi := varOf(ix.X), varOf(ix.Index)
+	if va == nil || vi == nil {
+		return false
+	}
+	if _, isSlice := va.Type().Underlying().(*types.Slice); !isSlice {
+		return false
+	}
+	// the enclosing range statement that defines i
+	var loop *ast.RangeStmt
+	ast.Inspect(fi.Body, func(n ast.Node) bool {
+		rs, ok := n.(*ast.RangeStmt)
+		if !ok || rs.Tok != token.DEFINE || rs.Key == nil {
+			return true
+		}
+		if k, isID := rs.Key.(*ast.Ident); isID && info.Defs[k] == vi && rs.Body.Pos() <= ix.Pos() && ix.End() <= rs.Body.End() {
+			loop = rs
+		}
+		return true
+	})
+	if loop == nil {
+		return false
+	}
+	vb := varOf(loop.X)
+	if vb == nil {
+		return false
+	}
+	switch vb.Type().Underlying().(type) {
+	case *types.Slice, *types.Array:
+	default:
+		return false
+	}
+	writes := func(v *types.Var, within ast.Node) int {
+		n := 0
+		is := func(x ast.Expr) bool {
+			id, ok := unparen(x).(*ast.Ident)
+			return ok && (info.Uses[id] == v || info.Defs[id] == v)
+		}
+		ast.Inspect(within, func(nd ast.Node) bool {
+			switch x := nd.(type) {
+			case *ast.AssignStmt:
+				for _, l := range x.Lhs {
+					if is(l) {
+						n++
+					}
+				}
+			case *ast.ValueSpec:
+				for _, id := range x.Names {
+					if info.Defs[id] == v {
+						n++
+					}
+				}
+			case *ast.IncDecStmt:
+				if is(x.X) {
+					n++
+				}
+			case *ast.UnaryExpr:
+				if x.Op == token.AND && is(x.X) {
+					n += 2
+				}
+			case *ast.RangeStmt:
+				if x != loop && ((x.Key != nil && is(x.Key)) || (x.Value != nil && is(x.Value))) {
+					n++
+				}
+			case *ast.FuncLit:
+				// a closure that writes the variable may run at any time
+				inner := 0
+				ast.Inspect(x.Body, func(m ast.Node) bool {
+					if as, ok := m.(*ast.AssignStmt); ok {
+						for _, l := range as.Lhs {
+							if is(l) {
+								inner++
+							}
+						}
+					}
+					return true
+				})
+				if inner > 0 {
+					n += 2
+				}
+			}
+			return true
+		})
+		return n
+	}
+	if writes(vi, loop.Body) != 0 {
+		return false
+	}
+	if va == vb {
+		return writes(va, loop.Body) == 0
+	}
+	isParam := func(v *types.Var) bool {
+		sig := fi.Sig
+		if sig == nil {
+			return false
+		}
+		for i := 0; i < sig.Params().Len(); i++ {
+			if sig.Params().At(i) == v {
+				return true
+			}
+		}
+		return false
+	}
+	wb := writes(vb, fi.Body)
+	if (isParam(vb) && wb != 0) || (!isParam(vb) && wb != 1) {
+		return false
+	}
+	if writes(va, fi.Body) != 1 {
+		return false
+	}
+	// the single definition of a: make(T, len(b)[, cap]) positioned after b's definition and before the loop
+	found := false
+	ast.Inspect(fi.Body, func(nd ast.Node) bool {
+		as, ok := nd.(*ast.AssignStmt)
+		if !ok || len(as.Lhs) != 1 || len(as.Rhs) != 1 || as.End() > loop.Pos() {
+			return true
+		}
+		id, isID := as.Lhs[0].(*ast.Ident)
+		if !isID || (info.Defs[id] != va && info.Uses[id] != va) {
+			return true
+		}
+		call, isCall := unparen(as.Rhs[0]).(*ast.CallExpr)
+		if !isCall || len(call.Args) < 2 {
+			return true
+		}
+		if f, isF := unparen(call.Fun).(*ast.Ident); !isF || f.Name != "make" || info.Uses[f] != types.Universe.Lookup("make") {
+			return true
+		}
+		ln, isLen := unparen(call.Args[1]).(*ast.CallExpr)
+		if !isLen || len(ln.Args) != 1 {
+			return true
+		}
+		if f, isF := unparen(ln.Fun).(*ast.Ident); !isF || f.Name != "len" || info.Uses[f] != types.Universe.Lookup("len") {
+			return true
+		}
+		if varOf(ln.Args[0]) == vb && vb.Pos() < as.Pos() {
+			found = true
+		}
+		return true
+	})
+	return found
+}
+
+// boundsByCallers: an index or slice expression inside a helper that the validated tree does not have is justified by
+// its callers: the helper is interpreted in place in every function it is attributed to (E1, e1_inline.go), and at the
+// expression, on every path, the length guard must be established: c <= len(x) for x[:c] / x[c:], c < len(x) for x[c].
+func boundsByCallers(c *Ctx, holder *FuncInfo, site ast.Expr) (string, bool) {
+	root := holder.Root()
+	if root.Obj == nil || c.helpers()[root.Obj] == nil || c.helpers()[root.Obj].escapes {
+		return "", false
+	}
+	callers := c.attributed(root)
+	if len(callers) == 0 || (len(callers) == 1 && callers[0] == root.Name) {
+		return "", false
+	}
+	e := c.e1()
+	if !e.wantIndex {
+		e.wantIndex = true
+		e.addRelevant("le($c, len($x))", "lt($c, len($x))")
+		e.cache = map[*FuncInfo]*e1func{}
+		e.inferred, e.inferring = nil, nil
+	}
+	for _, cn := range callers {
+		g := c.P.Fn(cn)
+		if g == nil || g.Body == nil {
+			return "", false
+		}
+		f := e.analyse(g)
+		found := 0
+		for _, s := range f.sites {
+			if s.kind != "index" || s.node != ast.Node(site) {
+				continue
+			}
+			found++
+			var clauses []Clause
+			b := Bind{}
+			t := s.term
+			isConst := func(x *Term) bool { _, ok := constValueOf(x); return ok }
+			switch {
+			case t.K == "slice" && len(t.A) == 4 && t.A[3].S == "" && t.A[3].K == "const":
+				lo, hi := t.A[1], t.A[2]
+				loEmpty, hiEmpty := lo.K == "const" && lo.S == "", hi.K == "const" && hi.S == ""
+				b["x"] = t.A[0]
+				switch {
+				case !loEmpty && hiEmpty && isConst(lo):
+					b["c"] = lo
+				case loEmpty && !hiEmpty && isConst(hi):
+					b["c"] = hi
+				default:
+					return "", false
+				}
+				clauses = append(clauses, mustClause("le($c, len($x))"))
+			case t.K == "index" && len(t.A) == 2 && isConst(t.A[1]):
+				b["x"], b["c"] = t.A[0], t.A[1]
+				clauses = append(clauses, mustClause("lt($c, len($x))"))
+			default:
+				return "", false
+			}
+			for _, st := range s.states {
+				if r := solve(st, clauses, b.clone()); !r.ok {
+					return "", false
+				}
+			}
+		}
+		if found == 0 {
+			return "", false
+		}
+	}
+	return "the expression sits in a helper interpreted in place in " + strings.Join(callers, ", ") + "; the length guard holds there on every path (E1)", true
 }
